@@ -82,6 +82,31 @@ pub fn c13_disjoint_tok<const N: usize>() {
     finish(m);
 }
 
+/// very long request arrays (J beyond any machine-word bitmask): all keys pairwise different by construction
+/// (k_i = base + i), so the call must not panic and every position must agree with get_mut
+pub fn c13_disjoint_wide<const N: usize, const J: usize>() {
+    let (mut m, md) = any_u8_map::<N>();
+    let base = vf::any_u8();
+    let ks: [u8; J] = core::array::from_fn(|i| base.wrapping_add(i as u8));
+    let mut want = [0usize; J];
+    let mut i = 0;
+    while i < J { want[i] = m.get_mut(&ks[i]).map(|r| r as *mut u8 as usize).unwrap_or(0); i += 1; }
+    let mut got = [0usize; J];
+    let panicked = {
+        let (mm, g, kk) = (&mut m, &mut got, &ks);
+        vf::catch(move || {
+            let refs: [&u8; J] = core::array::from_fn(|i| &kk[i]);
+            let mut i = 0;
+            for r in mm.get_disjoint_mut(refs) { g[i] = r.map(|r| r as *mut u8 as usize).unwrap_or(0); i += 1; }
+        })
+    };
+    vf::check(!panicked, 1306);
+    vf::reach(1);
+    let mut i = 0;
+    while i < J { vf::check(got[i] == want[i], 1301); i += 1; }
+    same_u8_map(&m, &md);
+}
+
 // ------------------------------------------------------------------------------------------ C15
 pub fn c15_clone<const N: usize>() {
     tok::reset();
@@ -118,6 +143,35 @@ pub fn c15_clone<const N: usize>() {
     }
     // destruction of either leaves the other intact
     if vf::any_bool() { drop(c); observe(&m, &md); drop(m); } else { drop(m); observe_copy(&c, &cmd); drop(c); }
+    vf::check(tok::balanced(), 302);
+}
+
+/// Clone::clone_from (an implementation may override it to reuse the destination): afterwards the destination holds
+/// exactly the source's entries, whatever it held before (longer, shorter, overlapping); nothing is destroyed twice or leaked
+pub fn c15_clone_from<const N: usize>() {
+    tok::reset();
+    let (src, smd) = any_map::<N>();
+    let (mut dst, _dmd) = any_map::<N>();
+    dst.clone_from(&src);
+    observe_copy(&dst, &smd);
+    observe(&src, &smd);
+    vf::check(dst == src && src == dst, 1502);
+    well_formed(&dst);
+    if _dmd.n > smd.n { vf::reach(1); } else { vf::reach(2); }
+    // independence afterwards
+    drop(src);
+    observe_copy(&dst, &smd);
+    drop(dst);
+    vf::check(tok::balanced(), 302);
+    // sets
+    let (ssrc, ssmd) = any_set::<N>();
+    let (mut sdst, _) = any_set::<N>();
+    sdst.clone_from(&ssrc);
+    vf::check(sdst == ssrc && sdst.len() == ssmd.n, 1502);
+    let q = vf::any_u8();
+    vf::check(sdst.contains(&BKey::free(q)) == ssmd.has(q), 1501);
+    drop(ssrc);
+    drop(sdst);
     vf::check(tok::balanced(), 302);
 }
 
@@ -358,6 +412,7 @@ harnesses! {
     c15_clone: [0] [1] [2] [3];
     c15_set_clone: [0] [1] [2] [3];
     c15_clone_nodrop: [1] [2] [3];
+    c15_clone_from: [1] [2] [3];
     c16_from_iter: [0, 1] [1, 2] [2, 3] [3, 4] [2, 4];
     c16_from_array: [0] [1] [2] [3];
     c16_set_from: [1, 2] [2, 3] [3, 4];
@@ -370,6 +425,7 @@ harnesses! {
     c15_clone: [4] [5];
     c15_set_clone: [4] [5];
     c15_clone_nodrop: [4] [5];
+    c15_clone_from: [4];
     c16_from_iter: [3, 5] [4, 5];
     c16_from_array: [4] [5];
     c16_set_from: [4, 5];
